@@ -4,9 +4,59 @@
    the last message about it still queued (stream, then pending queue) carries the active's current
    entry, and if none is queued the standby's entry equals the active's. *)
 From Coq Require Import ZArith NArith List Bool Lia ZifyN ZifyNat ZifyBool.
-From Verif Require Import Base.Check Model.HaSync Model.HaSyncSpec.
+From Verif Require Import Base.Check Model.HaSyncFields Model.HaSync Model.HaSyncSpec.
 Import ListNotations.
 Local Open Scope N_scope.
+
+Arguments norm : simpl never.
+Arguments wire : simpl never.
+Arguments snapshot : simpl never.
+
+(* ---------- the record and its JSON round trip ---------- *)
+Lemma norm_n_idem : forall n r, norm_n n (norm_n n r) = norm_n n r.
+Proof. induction n as [|n IH]; intros r; cbn; auto. now rewrite IH. Qed.
+Lemma norm_idem r : norm (norm r) = norm r.
+Proof. apply norm_n_idem. Qed.
+Lemma norm_n_length : forall n r, length (norm_n n r) = n.
+Proof. induction n; intros; cbn; auto. Qed.
+Lemma norm_length r : length (norm r) = nf.
+Proof. apply norm_n_length. Qed.
+Lemma norm_n_id : forall r, norm_n (length r) r = r.
+Proof. induction r as [|x r IH]; cbn; auto. now rewrite IH. Qed.
+Lemma norm_of_length r : length r = nf -> norm r = r.
+Proof. intros H. unfold norm. rewrite <- H. apply norm_n_id. Qed.
+
+(* encode, then decode into a zero struct: every serialised field comes back, an omitted one comes
+   back as the zero it was omitted for *)
+Lemma wire_gen : forall fs, forallb f_ser fs = true ->
+  forall r, dec_into (repeat 0 (length fs)) (enc fs r) = norm_n (length fs) r.
+Proof.
+  induction fs as [|f fs IH]; intros Hs r; [reflexivity|].
+  cbn in Hs. apply andb_true_iff in Hs. destruct Hs as [Hf Hs]. cbn. rewrite Hf. cbn.
+  rewrite (IH Hs). f_equal.
+  destruct (omits f && (hd 0 r =? 0)) eqn:E; auto.
+  apply andb_true_iff in E. destruct E as [_ E]. apply N.eqb_eq in E. now rewrite E.
+Qed.
+Lemma fields_all_serialised : forallb f_ser fields = true.
+Proof. reflexivity. Qed.
+Theorem wire_norm r : wire r = norm r.
+Proof. apply (wire_gen fields fields_all_serialised). Qed.
+
+Lemma record_roundtrip : forall r, length r = nf -> wire r = r.
+Proof. intros r H. rewrite wire_norm. now apply norm_of_length. Qed.
+Lemma record_roundtrip_total : forall r, wire r = norm r /\ length (norm r) = nf /\ norm (norm r) = norm r.
+Proof. intros r. split; [apply wire_norm | split; [apply norm_length | apply norm_idem]]. Qed.
+
+Definition wfr (r : rec) : Prop := norm r = r.
+Lemma wire_wf r : wfr r -> wire r = r.
+Proof. intros H. rewrite wire_norm. exact H. Qed.
+Lemma wfr_norm r : wfr (norm r). Proof. apply norm_idem. Qed.
+
+(* decoding into the record already held (instead of a fresh one) would keep stale fields: the
+   Model's decoder makes the difference *)
+Lemma merge_decode_differs :
+  dec_into (repeat 1 nf) (enc fields zero_rec) <> zero_rec /\ wire zero_rec = zero_rec.
+Proof. split; [vm_compute; discriminate | vm_compute; reflexivity]. Qed.
 
 Definition abs (s : state) : sstate := mkSS (pend s) (cq s) (sby s) (lnk s).
 Definition nxt (c : config) (s : state) (o : op) : state := fst (fst (step c s o)).
@@ -38,14 +88,22 @@ Proof.
     + apply IH. intros i. apply (H (S i)).
 Qed.
 
+Lemma req_eq : forall a b, req a b = true <-> a = b.
+Proof.
+  induction a as [|x a IH]; intros [|y b]; cbn; split; intros H; try congruence; try discriminate.
+  - apply andb_true_iff in H. destruct H as [H1 H2]. apply N.eqb_eq in H1. apply IH in H2. congruence.
+  - injection H as -> ->. rewrite N.eqb_refl. cbn. now apply IH.
+Qed.
+Lemma req_refl a : req a a = true. Proof. now apply req_eq. Qed.
+
 Lemma oeqb_eq a b : oeqb a b = true <-> a = b.
 Proof.
   destruct a, b; cbn; split; intros H; try congruence; try discriminate.
-  - apply N.eqb_eq in H. congruence.
-  - injection H as ->. apply N.eqb_refl.
+  - apply req_eq in H. congruence.
+  - injection H as ->. apply req_refl.
 Qed.
 
-Lemma nth_nil_none : forall i, nth i (@nil (option N)) None = None.
+Lemma nth_nil_none : forall i, nth i (@nil (option rec)) None = None.
 Proof. destruct i; auto. Qed.
 
 Lemma teqb_spec : forall a b, teqb a b = true <-> forall i, nth i a None = nth i b None.
@@ -71,8 +129,38 @@ Proof.
   - destruct i; cbn; auto.
 Qed.
 
+Lemma nth_snapshot a i : nth i (snapshot a) None = option_map wire (nth i a None).
+Proof. unfold snapshot. change (@None rec) with (option_map wire None) at 1. apply map_nth. Qed.
+
 Lemma msg_eqb_refl m : msg_eqb m m = true.
-Proof. destruct m; cbn; rewrite ?N.eqb_refl; auto. Qed.
+Proof. destruct m; cbn; rewrite ?N.eqb_refl, ?req_refl, ?eqb_reflx; auto. Qed.
+
+(* ---------- well-formed states: every record held by the active has exactly the struct's fields ---------- *)
+Definition wfm (m : msg) : Prop := match m with MPut _ _ r _ => wfr r | _ => True end.
+Definition wft (t : table) : Prop := forall i r, nth i t None = Some r -> wfr r.
+Definition wfS (s : state) : Prop := wft (act s) /\ Forall wfm (pend s) /\ Forall wfm (cq s).
+
+Lemma wire_msg_wf m : wfm m -> wire_msg m = m.
+Proof. destruct m; cbn; auto. intros H. now rewrite wire_wf. Qed.
+Lemma wft_nil : wft []. Proof. intros i r. rewrite nth_nil_none. discriminate. Qed.
+Lemma wft_tset t i x : wft t -> (forall r, x = Some r -> wfr r) -> wft (tset t i x).
+Proof.
+  intros Ht Hx j r. rewrite nth_tset. destruct (Nat.eqb i j); [apply Hx | apply Ht].
+Qed.
+Lemma nth_snapshot_wf a i : wft a -> nth i (snapshot a) None = nth i a None.
+Proof.
+  intros H. rewrite nth_snapshot. destruct (nth i a None) as [r|] eqn:E; cbn; auto.
+  now rewrite (wire_wf r (H i r E)).
+Qed.
+Lemma Forall_snoc {A} (P : A -> Prop) l x : Forall P l -> P x -> Forall P (l ++ [x]).
+Proof. intros. apply Forall_app. split; auto. Qed.
+Lemma Forall_tl {A} (P : A -> Prop) x l : Forall P (x :: l) -> Forall P l.
+Proof. intros H. now inversion H. Qed.
+Lemma Forall_hd {A} (P : A -> Prop) x l : Forall P (x :: l) -> P x.
+Proof. intros H. now inversion H. Qed.
+
+Lemma wfS_init : wfS init.
+Proof. repeat split; cbn; auto using wft_nil. Qed.
 
 (* ---------- monitor state is a projection of the Model state ---------- *)
 Ltac unf := unfold step_core, push, bcast.
@@ -82,25 +170,36 @@ Ltac dm := match goal with
   end.
 Ltac start s o := destruct s as [a sb rc sq pe q lk]; destruct o; unf; cbn.
 
+Lemma step_wf : forall c s o, wfS s -> wfS (nxt c s o).
+Proof.
+  intros c s o. unfold nxt, step, wfS. start s o; intros (HA & HP & HQ).
+  all: repeat (dm; cbn); repeat split; cbn; auto using wft_nil.
+  all: try (apply wft_tset; auto; intros r0 E; try discriminate; injection E as <-; apply wfr_norm).
+  all: try (apply Forall_snoc; auto; cbn; auto using wfr_norm).
+  all: try (eapply Forall_tl; eauto).
+  all: try (eapply Forall_hd; eauto).
+Qed.
+
 Lemma snext_abs : forall c s o, snext (abs s) o (obs c s o) = abs (nxt c s o).
 Proof.
   intros c s o. unfold obs, nxt, step. start s o.
   all: repeat (dm; cbn); unfold abs, snext; cbn; try reflexivity.
 Qed.
 
-(* ---------- clauses 0 and 1: every step, from every state ---------- *)
-Lemma step_v0 : forall c s o, v0 o (obs c s o) = false.
+(* ---------- clauses 0 and 1: every step, from every well-formed state ---------- *)
+Lemma step_v0 : forall c s o, wfS s -> v0 o (obs c s o) = false.
 Proof.
-  intros c s o. unfold v0, obs, step. start s o.
+  intros c s o. unfold v0, obs, step, wfS. start s o; intros (HA & HP & HQ).
   all: repeat (dm; cbn); try reflexivity; try congruence.
-  all: rewrite teqb_refl, ?andb_true_r; cbn.
-  all: apply negb_false_iff, teqb_spec; intros i; apply nth_fsync.
+  all: apply negb_false_iff, andb_true_iff; split; apply teqb_spec; intros i;
+       rewrite ?nth_fsync; apply nth_snapshot_wf; auto.
 Qed.
 
-Lemma step_v1 : forall c s o, v1 (abs s) o (obs c s o) = false.
+Lemma step_v1 : forall c s o, wfS s -> v1 (abs s) o (obs c s o) = false.
 Proof.
-  intros c s o. unfold v1, obs, step. start s o.
+  intros c s o. unfold v1, obs, step, wfS. start s o; intros (HA & HP & HQ).
   all: repeat (dm; cbn); try reflexivity; try congruence; rewrite ?teqb_refl, ?msg_eqb_refl; try reflexivity.
+  all: rewrite wire_msg_wf by (eapply Forall_hd; eauto); rewrite ?msg_eqb_refl, ?teqb_refl; reflexivity.
 Qed.
 
 Lemma step_v9 : forall c s o, v9 o (obs c s o) = false.
@@ -109,7 +208,7 @@ Proof.
   all: repeat (dm; cbn); try reflexivity; try congruence.
 Qed.
 
-(* clause 3 is violated only at steps where the Model raises marker 1303 *)
+(* clause 3 is violated only at steps where the Model raises a marker *)
 Lemma step_v3 : forall c s o, mks c s o = [] -> v3 (abs s) (obs c s o) = false.
 Proof.
   intros c s o. unfold v3, obs, mks, step. start s o.
@@ -117,14 +216,14 @@ Proof.
 Qed.
 
 (* ---------- clause 2: convergence invariant ---------- *)
-Definition eff_on (id : N) (m : msg) : option (option N) :=
+Definition eff_on (id : N) (m : msg) : option (option rec) :=
   match m with
-  | MPut i v _ => if i =? id then Some (Some v) else None
+  | MPut i _ v _ => if i =? id then Some (Some v) else None
   | MDel i _ => if i =? id then Some None else None
-  | MHb => None
+  | MHb _ => None
   end.
 (* effect on [id] of the last message about [id] in a queue (head = oldest) *)
-Fixpoint last_eff (id : N) (ms : list msg) : option (option N) :=
+Fixpoint last_eff (id : N) (ms : list msg) : option (option rec) :=
   match ms with
   | [] => None
   | m :: tl => match last_eff id tl with Some e => Some e | None => eff_on id m end
@@ -159,7 +258,7 @@ Definition formq (sb a : table) (l : list msg) : Prop :=
 Definition upd_ok (a a' : table) (m : msg) : Prop :=
   forall j, match eff_on j m with Some e => lookup a' j = e | None => lookup a' j = lookup a j end.
 
-Lemma upd_put a i v s : upd_ok a (tset a (N.to_nat i) (Some v)) (MPut i v s).
+Lemma upd_put a i u v s : upd_ok a (tset a (N.to_nat i) (Some v)) (MPut i u v s).
 Proof. intros j. unfold eff_on. rewrite lookup_tset. destruct (i =? j); auto. Qed.
 Lemma upd_del a i s : upd_ok a (tset a (N.to_nat i) None) (MDel i s).
 Proof. intros j. unfold eff_on. rewrite lookup_tset. destruct (i =? j); auto. Qed.
@@ -174,8 +273,6 @@ Proof.
   intros H U j. rewrite last_eff_snoc. specialize (U j). specialize (H j).
   destruct (eff_on j m); auto. destruct (last_eff j l); congruence.
 Qed.
-Lemma formp_same a a' l : formp a l -> (forall j, lookup a' j = lookup a j) -> formp a' l.
-Proof. intros H E j. specialize (H j). destruct (last_eff j l); auto. now rewrite E. Qed.
 Lemma formp_tl a m l : formp a (m :: l) -> formp a l.
 Proof. intros H j. specialize (H j). cbn in H. destruct (last_eff j l); auto. Qed.
 Lemma formq_deliver sb a m l : formq sb a (m :: l) -> formq (apply_msg m sb) a l.
@@ -183,47 +280,82 @@ Proof.
   intros H j. specialize (H j). cbn in H. rewrite lookup_apply.
   destruct (last_eff j l); auto. destruct (eff_on j m); auto.
 Qed.
-Lemma last_eff_hb j q pe : last_eff j ((q ++ [MHb]) ++ pe) = last_eff j (q ++ pe).
+Lemma last_eff_hb j q sq pe : last_eff j ((q ++ [MHb sq]) ++ pe) = last_eff j (q ++ pe).
 Proof. rewrite !last_eff_app. cbn. reflexivity. Qed.
 Lemma formq_of_formp sb a l : formp a l -> (forall j, lookup sb j = lookup a j) -> formq sb a l.
 Proof. intros H E j. specialize (H j). destruct (last_eff j l); auto. Qed.
+Lemma formp_nil a : formp a []. Proof. intros j. exact I. Qed.
 
+(* what survives a loss on the stream: the pending queue is still coherent with the active's store *)
+Definition weak (s : state) : Prop :=
+  formp (act s) (pend s) /\ (lnk s <> LStreaming -> cq s = []).
 Definition inv (s : state) : Prop :=
-  formp (act s) (pend s) /\
-  (lnk s <> LStreaming -> cq s = []) /\
-  (lnk s <> LDown -> formq (sby s) (act s) (cq s ++ pend s)).
+  weak s /\ (lnk s <> LDown -> formq (sby s) (act s) (cq s ++ pend s)).
 
 Lemma inv_init : inv init.
 Proof. repeat split; cbn; auto; try congruence. Qed.
 
-Lemma step_inv : forall c s o, mks c s o = [] -> inv s -> inv (nxt c s o).
+Lemma fsync_lookup a sb : wft a -> forall j, lookup (fsync (snapshot a) sb) j = lookup a j.
+Proof. intros H j. unfold lookup. rewrite nth_fsync. now apply nth_snapshot_wf. Qed.
+
+(* a step that does not refuse a push keeps the pending queue coherent *)
+Lemma step_weak : forall c s o, ~ In 1304 (mks c s o) -> weak s -> weak (nxt c s o).
 Proof.
-  intros c s o. unfold mks, nxt, inv, step.
+  intros c s o. unfold mks, nxt, weak, step.
   destruct s as [a sb rc sq pe q lk]. destruct o; unf; cbn.
-  - (* Put *) destruct (len pe <? c_pcap c); cbn; [|discriminate]. intros _ (HP & HC & HQ).
-    split; [|split]; auto.
-    + eapply formp_snoc; eauto using upd_put.
-    + intros HL. rewrite app_assoc. eapply formq_snoc; eauto using upd_put.
-  - (* Del *) destruct (len pe <? c_pcap c); cbn; [|discriminate]. intros _ (HP & HC & HQ).
-    split; [|split]; auto.
-    + eapply formp_snoc; eauto using upd_del.
-    + intros HL. rewrite app_assoc. eapply formq_snoc; eauto using upd_del.
+  - (* Put *) destruct (len pe <? c_pcap c); cbn; [|tauto]. intros _ (HP & HC).
+    split; auto. eapply formp_snoc; eauto using upd_put.
+  - (* Del *) destruct (len pe <? c_pcap c); cbn; [|tauto]. intros _ (HP & HC).
+    split; auto. eapply formp_snoc; eauto using upd_del.
+  - (* Broadcast *) destruct pe as [|m tl]; cbn; auto. intros _ (HP & HC). apply formp_tl in HP.
+    destruct lk; cbn; auto. destruct (len q <? c_ccap c); cbn; split; auto; congruence.
+  - (* Heartbeat *) intros _ (HP & HC). destruct lk; cbn; auto.
+    destruct (len q <? c_ccap c); cbn; split; auto; congruence.
+  - (* FullSync *) intros _ (HP & HC). destruct lk; cbn; auto; split; auto; intros _; apply HC; congruence.
+  - (* SyncFail *) intros _ (HP & HC). destruct lk; cbn; auto; split; auto; intros _; apply HC; congruence.
+  - (* Attach *) intros _ (HP & HC). destruct lk; cbn; auto.
+  - (* Deliver *) intros _ (HP & HC). destruct lk; cbn; auto. destruct q; cbn; auto. split; auto. congruence.
+  - (* Disconnect *) intros _ (HP & HC). destruct lk; cbn; auto; split; auto.
+  - (* Restart *) intros _ _. split; auto using formp_nil.
+Qed.
+
+(* a completed full sync re-establishes the whole invariant from the weak one *)
+Lemma fullsync_inv : forall c s, wfS s -> lnk s <> LStreaming -> weak s -> inv (nxt c s FullSync).
+Proof.
+  intros c s (HA & _) HL (HP & HC). unfold nxt, step, inv, weak.
+  destruct s as [a sb rc sq pe q lk]. cbn in *. specialize (HC HL). subst q.
+  destruct lk; cbn; try congruence.
+  all: split; [split; auto|]; intros _; cbn; apply formq_of_formp; auto; apply fsync_lookup; auto.
+Qed.
+
+Lemma restart_inv : forall c s, inv (nxt c s Restart).
+Proof. intros c s. unfold nxt, step, inv, weak. cbn. repeat split; auto using formp_nil. congruence. Qed.
+
+Lemma step_inv : forall c s o, mks c s o = [] -> wfS s -> inv s -> inv (nxt c s o).
+Proof.
+  intros c s o EM HW (HK & HQ).
+  assert (HK' : weak (nxt c s o)) by (apply step_weak; auto; rewrite EM; auto).
+  destruct o; try (apply restart_inv).
+  5: { (* FullSync *) destruct (lnk s) eqn:EL.
+       1,2: apply fullsync_inv; auto; congruence.
+       split; auto. unfold nxt, step. cbn. rewrite EL. cbn. rewrite EL. auto. }
+  all: split; auto; clear HK'; revert EM HW HK HQ; unfold mks, nxt, weak, wfS, step;
+       destruct s as [a sb rc sq pe q lk]; unf; cbn.
+  - (* Put *) destruct (len pe <? c_pcap c); cbn; [|discriminate]. intros _ _ _ HQ HL.
+    rewrite app_assoc. eapply formq_snoc; eauto using upd_put.
+  - (* Del *) destruct (len pe <? c_pcap c); cbn; [|discriminate]. intros _ _ _ HQ HL.
+    rewrite app_assoc. eapply formq_snoc; eauto using upd_del.
   - (* Broadcast *) destruct pe as [|m tl]; cbn; auto. destruct lk; cbn.
-    + intros _ (HP & HC & HQ). split; [|split]; [eapply formp_tl; eauto | auto | congruence].
+    + congruence.
     + discriminate.
-    + destruct (len q <? c_ccap c); cbn; [|discriminate]. intros _ (HP & HC & HQ).
-      split; [|split]; [eapply formp_tl; eauto | congruence | intros HL; rewrite <- app_assoc; cbn; auto].
+    + destruct (len q <? c_ccap c); cbn; [|discriminate]. intros _ _ _ HQ HL. rewrite <- app_assoc; cbn; auto.
   - (* Heartbeat *) destruct lk; cbn; auto.
-    destruct (len q <? c_ccap c); cbn; auto. intros _ (HP & HC & HQ).
-    split; [|split]; [auto | congruence | intros HL j; rewrite last_eff_hb; apply HQ; auto].
-  - (* FullSync *) destruct lk; cbn; auto; intros _ (HP & HC & HQ); (split; [|split]; auto).
-    all: try (intros _; rewrite HC by congruence; cbn; apply formq_of_formp; auto; intros j; apply nth_fsync).
-    all: intros _; apply HC; congruence.
-  - (* Attach *) destruct lk; cbn; auto. intros _ (HP & HC & HQ).
-    split; [|split]; auto; try congruence. intros _. rewrite HC in HQ by congruence. apply HQ. congruence.
-  - (* Deliver *) destruct lk; cbn; auto. destruct q as [|m tl]; cbn; auto. intros _ (HP & HC & HQ).
-    split; [|split]; auto; try congruence. intros _. apply formq_deliver. apply HQ. congruence.
-  - (* Disconnect *) destruct lk; cbn; auto; intros _ (HP & HC & HQ); (split; [|split]; auto; congruence).
+    destruct (len q <? c_ccap c); cbn; auto. intros _ _ _ HQ HL j. rewrite last_eff_hb. apply HQ; auto.
+  - (* SyncFail *) destruct lk; cbn; auto; congruence.
+  - (* Attach *) destruct lk; cbn; auto. intros _ _ (_ & HC) HQ _. rewrite HC in HQ by congruence. apply HQ. congruence.
+  - (* Deliver *) destruct lk; cbn; auto. destruct q as [|m tl]; cbn; auto. intros _ (_ & _ & HF) _ HQ _.
+    rewrite wire_msg_wf by (eapply Forall_hd; eauto). apply formq_deliver. apply HQ. congruence.
+  - (* Disconnect *) destruct lk; cbn; auto; congruence.
 Qed.
 
 Lemma len_zero {A} (l : list A) : len l = 0 -> l = [].
@@ -231,7 +363,7 @@ Proof. destruct l; cbn; auto. unfold len. cbn. lia. Qed.
 
 Lemma v2_of_inv s r : inv s -> v2 (observe s r) = false.
 Proof.
-  intros (HP & HC & HQ). unfold v2, observe. cbn. destruct (lnk s) eqn:EL; auto.
+  intros ((HP & HC) & HQ). unfold v2, observe. cbn. destruct (lnk s) eqn:EL; auto.
   destruct (len (pend s) =? 0) eqn:E1; auto. destruct (len (cq s) =? 0) eqn:E2; auto. cbn.
   apply N.eqb_eq, len_zero in E1. apply N.eqb_eq, len_zero in E2.
   apply negb_false_iff, teqb_spec. intros i.
@@ -291,23 +423,26 @@ Lemma sinit_abs : sinit = abs init. Proof. reflexivity. Qed.
 
 Theorem mon_after_full_sync_equal : forall c ops, monitor (only 0) c init sinit ops = None.
 Proof.
-  intros. rewrite sinit_abs. apply (monitor_gen (only 0) g_all (fun _ => True)); auto using g_all_run.
-  intros s o _ _. split; auto. rewrite filter_only by (cbn; auto). now rewrite step_v0.
+  intros. rewrite sinit_abs. apply (monitor_gen (only 0) g_all wfS); auto using g_all_run, wfS_init.
+  intros s o HW _. split; [apply step_wf; auto|]. rewrite filter_only by (cbn; auto). now rewrite step_v0.
 Qed.
 
 Theorem mon_stream_applies_in_order : forall c ops, monitor (only 1) c init sinit ops = None.
 Proof.
-  intros. rewrite sinit_abs. apply (monitor_gen (only 1) g_all (fun _ => True)); auto using g_all_run.
-  intros s o _ _. split; auto. rewrite filter_only by (cbn; auto). now rewrite step_v1.
+  intros. rewrite sinit_abs. apply (monitor_gen (only 1) g_all wfS); auto using g_all_run, wfS_init.
+  intros s o HW _. split; [apply step_wf; auto|]. rewrite filter_only by (cbn; auto). now rewrite step_v1.
 Qed.
+
+Definition winv (s : state) : Prop := wfS s /\ inv s.
+Lemma winv_init : winv init. Proof. split; [apply wfS_init | apply inv_init]. Qed.
 
 Theorem mon_quiescent_convergence_partial : forall c ops,
   lossless c init ops = true -> monitor (only 2) c init sinit ops = None.
 Proof.
   intros c ops G. rewrite sinit_abs.
-  apply (monitor_gen (only 2) g_quiet inv); auto using inv_init, lossless_run.
-  intros s o HI HG. unfold g_quiet in HG. destruct (mks c s o) eqn:EM; [|discriminate].
-  pose proof (step_inv c s o EM HI) as HI'. split; auto.
+  apply (monitor_gen (only 2) g_quiet winv); auto using winv_init, lossless_run.
+  intros s o (HW & HI) HG. unfold g_quiet in HG. destruct (mks c s o) eqn:EM; [|discriminate].
+  pose proof (step_inv c s o EM HW HI) as HI'. split; [split; auto using step_wf|].
   rewrite filter_only by (cbn; tauto). destruct (obs_observe c s o) as (r & ->). now rewrite v2_of_inv.
 Qed.
 
@@ -324,37 +459,203 @@ Theorem mon_all_partial : forall c ops,
   lossless c init ops = true -> monitor (fun _ => true) c init sinit ops = None.
 Proof.
   intros c ops G. rewrite sinit_abs.
-  apply (monitor_gen (fun _ => true) g_quiet inv); auto using inv_init, lossless_run.
-  intros s o HI HG. unfold g_quiet in HG. destruct (mks c s o) eqn:EM; [|discriminate].
-  pose proof (step_inv c s o EM HI) as HI'. split; auto.
+  apply (monitor_gen (fun _ => true) g_quiet winv); auto using winv_init, lossless_run.
+  intros s o (HW & HI) HG. unfold g_quiet in HG. destruct (mks c s o) eqn:EM; [|discriminate].
+  pose proof (step_inv c s o EM HW HI) as HI'. split; [split; auto using step_wf|].
   assert (E : forall l, filter (fun _ : N => true) l = l) by (induction l; cbn; congruence).
   rewrite E. unfold viol. rewrite step_v0, step_v1, step_v3, step_v9 by auto.
   destruct (obs_observe c s o) as (r & ->). rewrite v2_of_inv by auto. reflexivity.
 Qed.
 
-(* plain form of the convergence clause on reachable states *)
-Lemma run_inv c : forall ops s, lossless c s ops = true -> inv s -> inv (run c s ops).
+(* ---------- the weaker guard: losses on the stream are repaired by the next full sync ---------- *)
+Definition tinv (t : taint) (s : state) : Prop :=
+  wfS s /\ match t with Clean => inv s | StreamLoss => weak s | PushLoss => True end.
+
+Lemma mks_cases : forall c s o,
+  mks c s o = [] \/
+  ((mks c s o = [1302] \/ mks c s o = [1303]) /\ exists m b, o_res (obs c s o) = RBcast m b) \/
+  mks c s o = [1304].
 Proof.
-  induction ops as [|o tl IH]; intros s H HI; auto. cbn in H. cbn.
-  pose proof (step_inv c s o) as HS. unfold mks, nxt in HS.
-  destruct (step c s o) as [[s' ob] mk]. cbn in *. destruct mk; [|discriminate]. apply IH; auto.
+  intros c s o. unfold mks, obs, step. start s o.
+  all: repeat (dm; cbn); auto.
+  all: right; left; split; eauto.
 Qed.
 
+Lemma sync_true_is_fullsync : forall c s o,
+  o_res (obs c s o) = RSync true -> o = FullSync /\ lnk s <> LStreaming.
+Proof.
+  intros c s o. unfold obs, step. start s o.
+  all: repeat (dm; cbn); try discriminate; intros _; split; auto; discriminate.
+Qed.
+
+Lemma step_tinv : forall c s o t, tinv t s ->
+  tinv (taint_step t o (obs c s o) (mks c s o)) (nxt c s o).
+Proof.
+  intros c s o t (HW & HT). split; [apply step_wf; auto|].
+  destruct (match o with Restart => true | _ => false end) eqn:ER.
+  { destruct o; try discriminate. exact (restart_inv c s). }
+  assert (TS : taint_step t o (obs c s o) (mks c s o) =
+               if has 1304 (mks c s o) then PushLoss else
+               match t with
+               | PushLoss => PushLoss
+               | _ => match o_res (obs c s o) with
+                      | RSync true => Clean
+                      | _ => if has 1302 (mks c s o) || has 1303 (mks c s o) then StreamLoss else t
+                      end
+               end) by (destruct o; try discriminate; reflexivity).
+  rewrite TS. clear TS ER.
+  assert (HWK : t <> PushLoss -> weak s) by (destruct t; cbn in HT; try tauto; intros _; apply HT).
+  destruct (mks_cases c s o) as [EM | [([EM|EM] & m & b & EB) | EM]]; rewrite EM; cbn.
+  - (* no marker *)
+    destruct t; auto.
+    + destruct (o_res (obs c s o)) as [| | | | |[]]; apply step_inv; auto.
+    + destruct (o_res (obs c s o)) as [| | | | |[]] eqn:EO;
+        try (apply step_weak; auto; rewrite EM; cbn; tauto).
+      destruct (sync_true_is_fullsync c s o EO) as (-> & HL). apply fullsync_inv; auto.
+  - rewrite EB. destruct t; auto; apply step_weak; try (rewrite EM; cbn; intros [H|[]]; discriminate);
+      apply HWK; discriminate.
+  - rewrite EB. destruct t; auto; apply step_weak; try (rewrite EM; cbn; intros [H|[]]; discriminate);
+      apply HWK; discriminate.
+  - exact I.
+Qed.
+
+Lemma run_tinv c : forall ops s t, tinv t s -> tinv (taint_run c s t ops) (run c s ops).
+Proof.
+  induction ops as [|o tl IH]; intros s t H; auto. cbn.
+  pose proof (step_tinv c s o t H) as HS. unfold obs, mks, nxt in HS.
+  destruct (step c s o) as [[s' ob] mk]. cbn in *. apply IH; auto.
+Qed.
+
+Theorem quiescent_tables_equal_healed : forall c ops,
+  healed c init ops = true ->
+  let s := run c init ops in
+  lnk s = LStreaming -> pend s = [] -> cq s = [] -> forall id, lookup (sby s) id = lookup (act s) id.
+Proof.
+  intros c ops G s HL HP HQ id. unfold healed in G.
+  pose proof (run_tinv c ops init Clean (conj wfS_init inv_init)) as (_ & H). fold s in H.
+  destruct (taint_run c init Clean ops); try discriminate. destruct H as (_ & H).
+  rewrite HL, HP, HQ in H. specialize (H ltac:(discriminate) id). exact H.
+Qed.
+
+(* the new guard is weaker than the old one *)
+Lemma lossless_taint c : forall ops s, lossless c s ops = true -> taint_run c s Clean ops = Clean.
+Proof.
+  induction ops as [|o tl IH]; intros s H; auto. cbn in *.
+  destruct (step c s o) as [[s' ob] mk]. destruct mk; [|discriminate].
+  replace (taint_step Clean o ob []) with Clean; auto.
+  destruct o; cbn; auto; destruct (o_res ob) as [| | | | |[]]; auto.
+Qed.
+Theorem lossless_healed : forall c ops, lossless c init ops = true -> healed c init ops = true.
+Proof. intros c ops H. unfold healed. now rewrite lossless_taint. Qed.
+
+(* plain form of the convergence clause on reachable states *)
 Theorem quiescent_tables_equal : forall c ops,
   lossless c init ops = true ->
   let s := run c init ops in
   lnk s = LStreaming -> pend s = [] -> cq s = [] -> forall id, lookup (sby s) id = lookup (act s) id.
-Proof.
-  intros c ops G s HL HP HQ id. destruct (run_inv c ops init G inv_init) as (_ & _ & H).
-  fold s in H. rewrite HL, HP, HQ in H. specialize (H ltac:(discriminate) id). exact H.
-Qed.
+Proof. intros c ops G. apply quiescent_tables_equal_healed. now apply lossless_healed. Qed.
 
+(* ---------- full sync and stream application, record by record, from EVERY state ---------- *)
 Theorem full_sync_copies_snapshot : forall c s,
   lnk s <> LStreaming ->
-  forall id, lookup (sby (nxt c s FullSync)) id = lookup (act s) id /\
-             lookup (rcv (nxt c s FullSync)) id = lookup (act s) id.
+  forall id, lookup (sby (nxt c s FullSync)) id = option_map norm (lookup (act s) id) /\
+             lookup (rcv (nxt c s FullSync)) id = option_map norm (lookup (act s) id).
 Proof.
-  intros c s HL id. unfold nxt, step. cbn. destruct (lnk s); try congruence; cbn; split; auto; apply nth_fsync.
+  intros c s HL id. unfold nxt, step. cbn. destruct (lnk s); try congruence; cbn; unfold lookup.
+  all: rewrite ?nth_fsync, nth_snapshot; split; destruct (nth (N.to_nat id) (act s) None); cbn;
+       now rewrite ?wire_norm.
+Qed.
+
+Ltac fold_lookup := repeat match goal with
+  | |- context [nth (N.to_nat ?j) ?t None] => change (nth (N.to_nat j) t None) with (lookup t j) end.
+
+(* an add/update that reaches the standby REPLACES the record stored under its id by the pushed one,
+   whatever the old record was (every field, zero values included), and touches no other id *)
+Theorem deliver_replaces_record : forall c s id u r sq tl,
+  lnk s = LStreaming -> cq s = MPut id u r sq :: tl ->
+  let s' := nxt c s Deliver in
+  lookup (sby s') id = Some (norm r) /\ lookup (rcv s') id = Some (norm r) /\
+  (forall j, j <> id -> lookup (sby s') j = lookup (sby s) j /\ lookup (rcv s') j = lookup (rcv s) j).
+Proof.
+  intros c s id u r sq tl HL HQ. unfold nxt, step. cbn. rewrite HL, HQ. cbn. fold_lookup.
+  rewrite !lookup_tset, N.eqb_refl, wire_norm. repeat split; auto.
+  all: fold_lookup; rewrite lookup_tset; destruct (N.eqb_spec id j); auto; congruence.
+Qed.
+
+Theorem deliver_delete_removes : forall c s id sq tl,
+  lnk s = LStreaming -> cq s = MDel id sq :: tl ->
+  let s' := nxt c s Deliver in
+  lookup (sby s') id = None /\ lookup (rcv s') id = None /\
+  (forall j, j <> id -> lookup (sby s') j = lookup (sby s) j /\ lookup (rcv s') j = lookup (rcv s) j).
+Proof.
+  intros c s id sq tl HL HQ. unfold nxt, step. cbn. rewrite HL, HQ. cbn. fold_lookup.
+  rewrite !lookup_tset, N.eqb_refl. repeat split; auto.
+  all: fold_lookup; rewrite lookup_tset; destruct (N.eqb_spec id j); auto; congruence.
+Qed.
+
+(* the session manager's record reaches the active's store and the queue as given *)
+Theorem put_stores_record : forall c s id r,
+  lookup (act (nxt c s (Put id r))) id = Some (norm r).
+Proof.
+  intros. unfold nxt, step. cbn. unfold push. destruct (len (pend s) <? c_pcap c); cbn; fold_lookup;
+  now rewrite lookup_tset, N.eqb_refl.
+Qed.
+
+(* ---------- the loss markers, exactly ---------- *)
+Definition is_push (o : op) : bool := match o with Put _ _ | Del _ => true | _ => false end.
+
+Theorem marker_1304_exact : forall c s o,
+  In 1304 (mks c s o) <-> is_push o = true /\ c_pcap c <= len (pend s).
+Proof.
+  intros c s o. unfold mks, step. start s o.
+  all: repeat (dm; cbn); split; try tauto; try (intros [H|[]]; discriminate H);
+       try (intros [H _]; discriminate H).
+  all: try (intros _; split; auto; apply N.ltb_ge; auto).
+  all: try (intros [_ H]; apply N.ltb_ge in H; congruence).
+  all: try (intros [H|[]]; discriminate).
+Qed.
+
+Theorem marker_1303_exact : forall c s o,
+  In 1303 (mks c s o) <-> o = Broadcast /\ pend s <> [] /\ lnk s = LStreaming /\ c_ccap c <= len (cq s).
+Proof.
+  intros c s o. unfold mks, step. start s o.
+  all: repeat (dm; cbn); split; try tauto; try (intros [H|[]]; discriminate H);
+       try (intros [H _]; discriminate H); try (intros (_ & H & _); congruence);
+       try (intros (_ & _ & H & _); discriminate H).
+  all: try (intros _; repeat split; auto; try discriminate; apply N.ltb_ge; auto).
+  all: try (intros (_ & _ & _ & H); apply N.ltb_ge in H; congruence).
+Qed.
+
+Theorem marker_1302_exact : forall c s o,
+  In 1302 (mks c s o) <-> o = Broadcast /\ pend s <> [] /\ lnk s = LSynced.
+Proof.
+  intros c s o. unfold mks, step. start s o.
+  all: repeat (dm; cbn); split; try tauto; try (intros [H|[]]; discriminate H);
+       try (intros [H _]; discriminate H); try (intros (_ & H & _); congruence);
+       try (intros (_ & _ & H); discriminate H).
+  all: try (intros _; repeat split; auto; discriminate).
+Qed.
+
+(* the queues never exceed their capacities *)
+Definition bounded (c : config) (s : state) : Prop :=
+  len (pend s) <= c_pcap c /\ len (cq s) <= c_ccap c.
+Lemma len_app1 {A} (l : list A) x : len (l ++ [x]) = len l + 1.
+Proof. unfold len. rewrite app_length. cbn. lia. Qed.
+Lemma len_tl_le {A} (x : A) l n : len (x :: l) <= n -> len l <= n.
+Proof. unfold len. cbn. lia. Qed.
+Lemma step_bounded : forall c s o, bounded c s -> bounded c (nxt c s o).
+Proof.
+  intros c s o. unfold nxt, step, bounded. start s o; intros (HP & HQ).
+  all: repeat (dm; cbn); split; auto; rewrite ?len_app1; try lia.
+  all: try (match goal with H : (_ <? _) = true |- _ => apply N.ltb_lt in H; lia end).
+  all: try (eapply len_tl_le; eauto).
+  all: try (unfold len; cbn; lia).
+Qed.
+Theorem queues_bounded : forall c ops, bounded c (run c init ops).
+Proof.
+  intros c ops. assert (H : bounded c init) by (unfold bounded, len; cbn; lia).
+  revert H. generalize init. induction ops as [|o tl IH]; intros s H; auto.
+  cbn. apply IH. apply (step_bounded c s o H).
 Qed.
 
 Lemma monitor_is_check m c : forall ops s ss i,
@@ -369,29 +670,54 @@ Qed.
 
 (* ---------- refutations ---------- *)
 Definition cfg_real : config := Build_config 1000 101.
+Definition cfg_tiny : config := Build_config 1 2.
+Definition rA : rec := repeat 1 nf.          (* every field non-zero *)
+Definition rB : rec := repeat 2 nf.
+Definition rH : rec := norm [0; 2; 0; 2; 0; 2; 0; 2; 0; 2; 0; 2; 0; 2; 0; 2; 0; 2; 0; 2].  (* every other field back to zero *)
 (* a change broadcast between the full sync and the stream attach is lost *)
-Definition w_gap : list op := [FullSync; Put 0 1; Broadcast; Attach].
+Definition w_gap : list op := [FullSync; Put 0 rA; Broadcast; Attach].
 (* 102 changes broadcast into a stream nobody reads: the last one is dropped *)
 Definition w_overflow : list op :=
-  [FullSync; Attach] ++ repeat (Put 0 1) 102 ++ repeat Broadcast 102.
+  [FullSync; Attach] ++ repeat (Put 0 rA) 102 ++ repeat Broadcast 102.
 Definition w_overflow_diverge : list op :=
-  [FullSync; Attach] ++ repeat (Put 0 1) 101 ++ [Put 1 7] ++ repeat Broadcast 102 ++ repeat Deliver 101.
+  [FullSync; Attach] ++ repeat (Put 0 rA) 101 ++ [Put 1 rB] ++ repeat Broadcast 102 ++ repeat Deliver 101.
+(* a push refused by the full pending queue (capacity 1 here; 1000 in the code: corpus k13c2) while the
+   standby is away: the full sync that follows does not repair it, the older queued message wins *)
+Definition w_push_refused : list op :=
+  [Put 0 rA; Put 0 rH; FullSync; Attach; Broadcast; Deliver].
 
 Theorem quiescent_convergence_refuted : exists c ops, monitor (only 2) c init sinit ops = Some 2.
 Proof. exists cfg_real, w_gap. vm_compute. reflexivity. Qed.
 Theorem quiescent_convergence_refuted_overflow : exists c ops, monitor (only 2) c init sinit ops = Some 2.
 Proof. exists cfg_real, w_overflow_diverge. vm_compute. reflexivity. Qed.
+Theorem quiescent_convergence_refuted_push : exists c ops,
+  monitor (only 2) c init sinit ops = Some 2 /\ taint_run c init Clean ops = PushLoss.
+Proof. exists cfg_tiny, w_push_refused. vm_compute. split; reflexivity. Qed.
 Theorem no_change_lost_refuted : exists c ops, monitor (only 3) c init sinit ops = Some 3.
 Proof. exists cfg_real, w_overflow. vm_compute. reflexivity. Qed.
 
-(* non-vacuity: a lossless history with adds, an update, deletes while away, reconnection, that ends
-   quiescent with a non-empty table *)
+(* non-vacuity: a lossless history with adds, an update resetting half of the fields, deletes while
+   away, a failed full sync, reconnection, that ends quiescent with a non-empty table *)
 Definition h_ok : list op :=
-  [Put 0 1; Put 1 1; Broadcast; FullSync; Attach; Broadcast; Deliver; Put 0 2; Broadcast; Deliver;
-   Disconnect; Del 1; Put 2 5; Broadcast; Broadcast; FullSync; Attach; Put 3 1; Del 3; Broadcast;
+  [Put 0 rA; Put 1 rA; Broadcast; FullSync; Attach; Broadcast; Deliver; Put 0 rH; Heartbeat; Broadcast; Deliver;
+   Deliver; Disconnect; Del 1; Put 2 rB; Broadcast; Broadcast; SyncFail; FullSync; Attach; Put 3 rA; Del 3; Broadcast;
    Broadcast; Deliver; Deliver].
 Lemma h_ok_facts :
   lossless cfg_real init h_ok = true /\ lnk (run cfg_real init h_ok) = LStreaming /\
   pend (run cfg_real init h_ok) = [] /\ cq (run cfg_real init h_ok) = [] /\
-  sby (run cfg_real init h_ok) = [Some 2; None; Some 5; None].
+  sby (run cfg_real init h_ok) = [Some rH; None; Some rB; None].
+Proof. vm_compute. repeat split; reflexivity. Qed.
+
+(* non-vacuity of the weaker guard: a history that LOSES changes (gap between snapshot and attach,
+   then the active restarts and the standby reconnects) and is healed: not lossless, yet quiescent and
+   equal at the end, with a non-empty table *)
+Definition h_healed : list op :=
+  w_gap ++ [Put 1 rB; Broadcast; Deliver; Disconnect; Put 1 rH; Broadcast; FullSync; Attach;
+            Restart; Put 2 rA; Broadcast; FullSync; Attach; Put 2 rH; Broadcast; Deliver].
+Lemma h_healed_facts :
+  lossless cfg_real init h_healed = false /\ healed cfg_real init h_healed = true /\
+  lnk (run cfg_real init h_healed) = LStreaming /\
+  pend (run cfg_real init h_healed) = [] /\ cq (run cfg_real init h_healed) = [] /\
+  sby (run cfg_real init h_healed) = [None; None; Some rH] /\
+  act (run cfg_real init h_healed) = [None; None; Some rH].
 Proof. vm_compute. repeat split; reflexivity. Qed.
